@@ -477,6 +477,67 @@ def rule_header_block_frames(ctx):
               ctx.loc(other[0][0], other[0][1]) if other else None)
 
 
+def _collector_root(b, l):
+    """the local whose storage `l` names: through `&mut x`, moves and copies, named or not, as long as each has one definition"""
+    for _ in range(12):
+        if 1 <= l <= b.arg_count:
+            return l
+        ds = [st for (_, _, st) in b.iter_stmts() if st["k"] == "assign" and st["p"]["l"] == l and not st["p"]["pr"]]
+        cs = [blk["t"] for blk in b.blocks if blk["t"]["k"] == "call" and blk["t"].get("dest") and blk["t"]["dest"]["l"] == l and not blk["t"]["dest"]["pr"]]
+        if len(ds) != 1 or cs:
+            return l
+        r = ds[0]["r"]
+        if r["k"] == "ref" and (not r["p"]["pr"] or r["p"]["pr"] == ["*"]):
+            l = r["p"]["l"]
+            continue
+        if r["k"] in ("use", "cast"):
+            pl = r["o"].get("m") or r["o"].get("c")
+            if isinstance(pl, dict) and "l" in pl and (not pl["pr"] or pl["pr"] == ["*"]):
+                l = pl["l"]
+                continue
+        return l
+    return l
+
+
+def rule_frames_returned(ctx):
+    """R2: the frames a buffer holds completely are the frames the parser reports: when parse_frames collects the frames it parsed in a
+    vector, every successful return hands out that vector (a trailing partial frame - the next segment has not arrived yet - or a frame
+    that does not parse ends the walk, it does not discard the frames in front of it)"""
+    P = ctx.program
+    b = P.method1(H2, "parse_frames")
+    S = T.Slicer(b, P)
+    coll = set()
+    for blk, t in b.calls():
+        if callee_of(t).endswith("::push") and len(t["args"]) == 2:
+            a1 = S.operand(t["args"][1], blk, len(b.blocks[blk]["s"]))
+            pl = t["args"][0].get("m") or t["args"][0].get("c")
+            if T.has_call(a1, "parse_single_frame") and isinstance(pl, dict) and "l" in pl:
+                coll.add(_collector_root(b, pl["l"]))
+    if not coll:
+        ctx.ok("R2", "parse_frames:collected-frames-returned", "parse_frames does not collect with push (nothing to compare)")
+        return
+    bad, n = [], 0
+    for (rb, j, full) in S.defs().get(0, []):
+        if not full or j >= len(b.blocks[rb]["s"]):
+            continue
+        st = b.blocks[rb]["s"][j]
+        r = st.get("r") or {}
+        if r.get("k") != "agg" or r.get("variant") != "Ok":
+            continue
+        ops = r.get("ops") or []
+        n += 1
+        for o in ops:
+            pl = o.get("m") or o.get("c")
+            if isinstance(pl, dict) and "l" in pl and _collector_root(b, pl["l"]) in coll:
+                break
+        else:
+            bad.append(rb)
+    ctx.check(not bad, "R2", "parse_frames:collected-frames-returned", "%d successful returns, each of the vector the parsed frames were pushed to" % n,
+              "parse_frames can return successfully without the frames it has parsed so far: complete SETTINGS / HEADERS frames in front of a "
+              "partial or unparseable frame are thrown away and the request they carry is never reported", ctx.loc(b, bad[0]) if bad else None)
+    ctx.floor("R2", "successful returns of parse_frames", n, 1)
+
+
 def rule_preface_is_prefix(ctx):
     """R4: a byte stream is HTTP/2 when it *starts* with the 24-byte client preface (RFC 7540 3.5).  `is_http2_traffic` is the test
     that routes a request to the HTTP/2 or the HTTP/1 decoder: it must look at the beginning of the data only - a search anywhere in
@@ -515,6 +576,7 @@ def rule_language(ctx):
 def run(ctx):
     rule_language(ctx)
     rule_header_block_frames(ctx)
+    rule_frames_returned(ctx)
     rule_preface_is_prefix(ctx)
     rule_lookup_keys_folded(ctx)
     rule_one_stream(ctx)
